@@ -324,6 +324,102 @@ func sqlGraphReplay(run *core.Run, universe map[string]abs.Event, edges map[stri
 	}
 	run.Add("replayed_states", int64(nstate))
 	validateFindTraces(run, prelude, findTraces, "graph")
+	// Themed random walks through the relation (as for the in-memory store): the breadth-first replay
+	// reaches every model state by one history; rows that an earlier history left behind (tag rows of a
+	// replaced or deleted event, tombstones) are state of the database besides what the model state
+	// determines when something is wrong. Every step is judged by the relation, every event offered so
+	// far is looked up through its keys (the answer must be listed), a sample of lines goes to FindTrace.
+	walks := 150
+	if run.Thorough() {
+		walks = 2500
+	}
+	related := relatedLabels(labels, universe)
+	keysOf := func(e abs.Event) [][]abs.Filter {
+		out := [][]abs.Filter{{{IDs: abs.StrSet{P: true, S: []string{e.ID}}}},
+			{{Authors: abs.StrSet{P: true, S: []string{e.Author}}, Kinds: abs.IntSet{P: true, S: []int64{e.Kind}}}}}
+		for _, t := range e.Tags {
+			if len(t.Name) == 1 && t.N >= 2 {
+				out = append(out, []abs.Filter{{Tags: map[string][]string{t.Name: {t.Val}}}})
+			}
+		}
+		return out
+	}
+	var walkTraces []tv.Trace
+	for w := 0; w < walks && run.Violations() < 8; w++ {
+		if err := st.Reset(); err != nil {
+			run.Problem("reset: %v", err)
+			return
+		}
+		pool := themedPool(r, labels, related)
+		sk := initKey
+		var hist []string
+		offered := map[string]bool{}
+		tr := tv.Trace{Name: fmt.Sprintf("sql-walk%d", w)}
+		for step := 0; step < 12; step++ {
+			a := pool[r.Intn(len(pool))]
+			es := edges[sk][a]
+			if len(es) == 0 {
+				break // the exported relation has no such edge (state bound of the model)
+			}
+			if err := st.Insert([]*mocrelay.Event{real[a]}); err != nil {
+				run.Violate("walk:insert-error", err.Error(), map[string]any{"history": hist, "insert": a})
+				break
+			}
+			got, err := st.Query(matchAll)
+			if err != nil {
+				run.Violate("walk:query-error", err.Error(), map[string]any{"history": hist, "insert": a})
+				break
+			}
+			run.Add("walk_steps", 1)
+			gl := conc.Labels(got)
+			next := ""
+			var allowed [][]string
+			for _, e := range es {
+				allowed = append(allowed, e.live)
+				if next == "" && abs.KeyOf(e.live) == abs.KeyOf(gl) {
+					next = e.to
+				}
+			}
+			if next == "" {
+				run.Violate("walk:"+stepShape(nil, gl, universe, universe[a], true),
+					fmt.Sprintf("history %v then insert %s: match-everything query lists %v; SqlStore allows %v", hist, a, gl, allowed),
+					map[string]any{"history": hist, "insert": a, "events": universe})
+				break
+			}
+			hist = append(hist, a)
+			offered[a] = true
+			sk = next
+			in := map[string]bool{}
+			for _, l := range gl {
+				in[l] = true
+			}
+			for l := range offered {
+				for _, fs := range keysOf(universe[l]) {
+					qr, err := st.Query(conc.Filters(fs))
+					if err != nil {
+						run.Violate("walk:query-error "+tagNames(fs), err.Error(), map[string]any{"history": hist, "fs": fs})
+						continue
+					}
+					run.Add("index_key_probes", 1)
+					rl := conc.Labels(qr)
+					for _, g := range rl {
+						if !in[g] {
+							run.Violate("walk:query returns an event that is not live "+describeFilters(fs),
+								fmt.Sprintf("history %v: query %v returns %s, which the match-everything query %v does not list", hist, fs, g, gl),
+								map[string]any{"history": hist, "fs": fs, "events": universe})
+						}
+					}
+					if w%6 == 0 {
+						tr.Lines = append(tr.Lines, map[string]any{"op": "find", "S": gl, "fs": abs.NormFilters(fs), "res": rl, "shape": "find " + describeFilters(fs)})
+					}
+				}
+			}
+		}
+		if len(tr.Lines) > 0 {
+			walkTraces = append(walkTraces, tr)
+		}
+	}
+	validateFindTraces(run, prelude, walkTraces, "walk")
 }
 
 func liveOf(st *sqlStore, conc *abs.Conc, real map[string]*mocrelay.Event, path []string) []string {
